@@ -39,6 +39,8 @@ type c20Case struct {
 	// as well, so the library gives the connection up; every later message of the batch is then a failed
 	// message too (it carries an error and has its entry in the joined error).
 	AbandonRset int `json:"abandon_rset,omitempty"`
+	// NilBefore > 0: the slice handed to Send has a nil entry in front of message number NilBefore.
+	NilBefore int `json:"nil_before,omitempty"`
 }
 
 var escLead = regexp.MustCompile(`^([245]\.\d{1,3}\.\d{1,3})(?:\s|$)`)
@@ -108,7 +110,18 @@ func c20Run(c c20Case) []*core.Violation {
 		if dialErr = cl.DialWithContext(context.Background()); dialErr != nil {
 			return nil
 		}
-		sendErr = cl.Send(msgs...)
+		sendList := msgs
+		if c.NilBefore > 0 && c.NilBefore <= len(msgs) {
+			// a nil entry in the slice handed to Send is skipped; everything else is as without it
+			sendList = nil
+			for i, m := range msgs {
+				if i+1 == c.NilBefore {
+					sendList = append(sendList, nil)
+				}
+				sendList = append(sendList, m)
+			}
+		}
+		sendErr = cl.Send(sendList...)
 		_ = cl.Close()
 		return nil
 	})
@@ -327,6 +340,9 @@ func c20Gen(t *rapid.T) c20Case {
 		c.AbandonRset = rapid.SampledFrom([]int{451, 421, 503, 554}).Draw(t, "abandonrsetcode")
 	}
 	n := rapid.IntRange(1, 4).Draw(t, "nmsgs")
+	if !c.TwoConns && rapid.IntRange(0, 5).Draw(t, "nilentry") == 0 {
+		c.NilBefore = rapid.IntRange(1, n).Draw(t, "nilbefore")
+	}
 	for i := 0; i < n; i++ {
 		c.NRcpt = append(c.NRcpt, rapid.IntRange(1, 4).Draw(t, "nrcpt"))
 	}
